@@ -32,6 +32,9 @@ pub enum After {
     /// V submits, the exchange runs until V has sent its handshake packet (V holds the new session
     /// from then on) and that packet and everything after it is lost
     VSubmitsHandshakeLost,
+    /// before the idle period the peer sends a request that V's application holds; after the idle
+    /// period the application answers it (a late answer over a session that has timed out)
+    VAnswersLate,
 }
 
 #[derive(Clone, Copy, Debug, PartialEq, Eq, Hash, Serialize, Deserialize)]
@@ -242,6 +245,20 @@ async fn run(case: &Case, rep: &mut CaseReport) -> Option<(String, String)> {
                     continue;
                 }
                 let p = 1 + (p as usize % n_peers as usize);
+                let mut held_for_later = Vec::new();
+                if then == After::VAnswersLate {
+                    // the peer's request is delivered to V's application, which does not answer yet
+                    w.cfg.resp_mode[0] = AppMode::Manual;
+                    act(&mut w, &Op::Submit { from: p as u8, to: 0, body: Body::Talk(opi as u8), with_record: true });
+                    w.settle().await;
+                    w.step += 1;
+                    if let Some(v) = deliver_all(&mut w, rep, cap).await {
+                        return Some(v);
+                    }
+                    w.cfg.resp_mode[0] = AppMode::Immediate;
+                    held_for_later = std::mem::take(&mut w.nodes[0].held_req);
+                    last_touch.insert(p, Instant::now());
+                }
                 // only meaningful if V holds a session with p
                 let Some(sess) = w.snaps[0].sessions.iter().find(|s| s.addr.socket_addr == w.nodes[p].addr).cloned() else { continue };
                 let Some(t0) = last_touch.get(&p).copied() else { continue };
@@ -317,6 +334,27 @@ async fn run(case: &Case, rep: &mut CaseReport) -> Option<(String, String)> {
                             } else {
                                 limbo.insert(p);
                             }
+                        }
+                    }
+                    After::VAnswersLate => {
+                        let n_held = held_for_later.len();
+                        for (addr, req) in held_for_later.drain(..) {
+                            w.respond(0, addr, req, 1);
+                        }
+                        w.settle().await;
+                        w.step += 1;
+                        for d in &w.log[log_before..] {
+                            if d.from_node == Some(0) && d.to_addr == w.nodes[p].addr {
+                                if let Some((Message::Response(r), _)) = decrypt(d, &old_keys) {
+                                    return Some((
+                                        "sessions/expired-session-used-to-encrypt".into(),
+                                        format!("after a measured idle of {:?} (timeout {SHORT_TIMEOUT_MS} ms) V's application answered a request it had been holding, and V sent {r} to peer {p} encrypted under the timed-out session's key", t0.elapsed()),
+                                    ));
+                                }
+                            }
+                        }
+                        if n_held > 0 {
+                            rep.class("after-expiry-late-answer-not-sent-under-the-old-key");
                         }
                     }
                     After::PeerSubmits | After::PeerSubmitsThenStale => {
@@ -420,7 +458,7 @@ impl Property for C15 {
         tier.pick(1_200, 12_000)
     }
     fn strategy(_tier: Tier) -> BoxedStrategy<Case> {
-        let after = || prop_oneof![3 => Just(After::VSubmits), 3 => Just(After::PeerSubmits), 2 => Just(After::VSubmitsThenStale), 2 => Just(After::PeerSubmitsThenStale), 2 => Just(After::VSubmitsHandshakeLost)];
+        let after = || prop_oneof![3 => Just(After::VSubmits), 3 => Just(After::PeerSubmits), 2 => Just(After::VSubmitsThenStale), 2 => Just(After::PeerSubmitsThenStale), 2 => Just(After::VSubmitsHandshakeLost), 2 => Just(After::VAnswersLate)];
         let op = || {
             prop_oneof![
                 5 => (0u8..6).prop_map(COp::ExchangeOut),
@@ -478,7 +516,7 @@ impl Property for C15 {
         rep
     }
     fn rule() -> String {
-        "V (real handler, virtual wire) with session_cache_capacity 1..5 and session_timeout in {120 ms real, 1 day}, 2..6 honest peers; ops: complete exchanges in either direction (establish / refresh sessions) and, in the 120 ms regime, at most two real idle periods per case that last until the harness has MEASURED more than 1.3 x timeout since the end of the last op that touched that session, followed by V submitting a request to the idle peer or the idle peer sending V a request under its (unexpired) session. X1: the datagram V then emits does not decrypt under any key V held before the idle period, and a message under the old session is not delivered before a new handshake; X2: V's probe snapshot never lists more sessions than the capacity; X3 (1-day regime): a session disappears only when a new one is established at full capacity, exactly one, and it belongs to the peer least recently used according to the harness ledger. Short naps (10..100 ms) let some sessions age while others are refreshed; by-construction scenarios: capacity pressure after a re-established session, and the oldest session aging out while the others are refreshed before newcomers arrive. Non-trivial = a measured long idle followed by traffic, or a session established at full capacity.".into()
+        "V (real handler, virtual wire) with session_cache_capacity 1..5 and session_timeout in {120 ms real, 1 day}, 2..6 honest peers; ops: complete exchanges in either direction (establish / refresh sessions) and, in the 120 ms regime, at most two real idle periods per case that last until the harness has MEASURED more than 1.3 x timeout since the end of the last op that touched that session, followed by V submitting a request to the idle peer, the idle peer sending V a request under its (unexpired) session, or V's application answering a request of that peer it has been holding since before the idle period. X1: the datagram V then emits does not decrypt under any key V held before the idle period, and a message under the old session is not delivered before a new handshake; X2: V's probe snapshot never lists more sessions than the capacity; X3 (1-day regime): a session disappears only when a new one is established at full capacity, exactly one, and it belongs to the peer least recently used according to the harness ledger. Short naps (10..100 ms) let some sessions age while others are refreshed; by-construction scenarios: capacity pressure after a re-established session, and the oldest session aging out while the others are refreshed before newcomers arrive. Non-trivial = a measured long idle followed by traffic, or a session established at full capacity.".into()
     }
     fn assumptions() -> Vec<String> {
         vec![
